@@ -123,6 +123,10 @@ func (c *Ctx) oblige(s *State, kind, label, goal, human string, pos token.Pos) {
 	for _, d := range skDecls {
 		sb.WriteString(d)
 		sb.WriteByte('\n')
+		// integer skolem constants of a quantified goal: the element or key the counterexample is about
+		if f := strings.Fields(strings.TrimSuffix(strings.TrimPrefix(d, "(declare-const "), ")")); len(f) >= 2 && strings.Join(f[1:], " ") == string(c.ar.idxSort()) {
+			o.Skolems = append(o.Skolems, f[0])
+		}
 	}
 	sb.WriteString("(assert (not " + skGoal + "))\n")
 	o.Script = sb.String()
